@@ -111,7 +111,15 @@ def read_back(ctx, path, case, order, what):
     pio = precomputed_io.get_IO_for_existing_dataset(acc)
     stored = set(order)
     sc_ = sc.scale_info(case)
-    for pos in sc.grid_positions(case["grid"]):
+    # one reader object serves many fetches: stored and never-stored chunks in
+    # grid order, then in a shuffled order, then reversed
+    positions = sc.grid_positions(case["grid"])
+    shuffled = list(positions)
+    np.random.default_rng(case["seed"]).shuffle(shuffled)
+    sequence = positions + [tuple(p) for p in shuffled] + positions[::-1]
+    if len(positions) > 40:
+        sequence = positions + [tuple(p) for p in shuffled]
+    for pos in sequence:
         arr, cc = chunk_array(case, pos)
         if pos in stored:
             try:
